@@ -613,6 +613,23 @@ func (m *monitor) checkTable(b bo.Box, groups []bo.Box) {
 		if boxRunning(g) {
 			continue // placeholder of a running row group: formed and judged where it is placed
 		}
+		// A running row is out of the flow (css-gcpm-3 §1.2) but its placeholder stays among the rows;
+		// whether a cell of that row with rowspan > 1 reserves slots in the rows that follow is defined by
+		// no specification (webrender reserves them).  Such a group is not judged slot by slot.
+		undefinedGrid := false
+		for _, row := range rows {
+			if kindOf(row) == kRow && boxRunning(row) {
+				for _, c := range children(row) {
+					if kindOf(c) == kCell && c.Box().Rowspan > 1 {
+						undefinedGrid = true
+					}
+				}
+			}
+		}
+		if undefinedGrid {
+			m.res.Count("groups_with_row_spanning_running_row_not_judged", 1)
+			continue
+		}
 		for ri, row := range rows {
 			if kindOf(row) != kRow {
 				m.fail("table-improper-child", "child %d of %s is %s", ri, desc(g), desc(row))
